@@ -84,6 +84,8 @@ def check_C12(run):
                "f:[\"*\" TO 5]", "f:[1 TO \"*\"]", "f:{\"*\" TO \"*\"}", "f:[1e19 TO *]", "f:[-1e19 TO 1e19]", "f:[* TO 18446744073709551616]", "f:1e19"]
     res, _, _ = stage_texts(run, special, name="special_texts", with_json=True)
     stage_judge_enum(run, res, "C12", name="judge_special")
+    res, _, _ = stage_texts(run, checks_parser.zoo_texts(), name="zoo_texts", with_json=True)
+    stage_judge_enum(run, res, "C12", name="judge_zoo_texts")
     run.exhaustive = True
     run.notes.append("every expression Parse returns for: all trees to depth 2 over the leaf alphabet (incl. quoted wildcards, slash-delimited strings, "
                      "integer-valued floats, empty strings), sampled deeper trees and near misses (seed %d), every token sequence up to the bound "
